@@ -8,7 +8,7 @@ prop("C03", pkg="c03",
           "Non-trivial = the built value is not the zero value of its type; distinct = FNV-64 of (type descriptor JSON, value recipe JSON, by-pointer). "
           "Inputs of classes listed as known findings are avoided by construction or their specific difference is tolerated; both are counted in excluded_known.",
      quick=dict(shards=16, scale=1, timeout=900),
-     thorough=dict(shards=16, scale=18, timeout=3000),
+     thorough=dict(shards=16, scale=12, timeout=3000),
      technique="property-based testing (pgregory.net/rapid): generated Go types (reflect.StructOf + static corpus) x generated values, round-trip / size / determinism oracle, "
                "journal-supervised shards",
      level_text="Exploration: every generated (type, value) satisfied Unmarshal(Marshal(v)) == v up to nil-versus-empty slices/maps (floats by bit pattern), "
